@@ -289,7 +289,8 @@ fn dedup_arrays(v: Vec<[u64; 4]>) -> Vec<[u64; 4]> {
 }
 
 fn write_values(ctx: &Ctx) -> Vec<u64> {
-    let mut v = vec![0u64, !0u64, 0xA5A5_A5A5_A5A5_A5A5, 0x0123_4567_89AB_CDEF, ctx.seed_pattern()];
+    // ... incl. values that are non-zero but zero within narrow fields (even, or only the top bit set)
+    let mut v = vec![0u64, !0u64, 0xA5A5_A5A5_A5A5_A5A5, 0x0123_4567_89AB_CDEF, ctx.seed_pattern(), !1u64, 2, 1u64 << 63];
     if ctx.tier.is_thorough() {
         for k in 0..64 {
             v.push(1u64 << k);
